@@ -5,6 +5,7 @@ c13.rate_chart, c08.convert, c18.copy, c01/c02/c04/c06.denote); C15 adds the rel
 (`Spec/Perm.lean`) evaluated on rows observed on f(chart) and f(permuted chart), and the tie hypotheses. -/
 import Reamber.Util.Json
 import Reamber.Spec.Perm
+import Reamber.Model.BpmList
 
 open Lean Reamber.J
 
@@ -40,8 +41,31 @@ def noteOf? (j : Json) : Except String FullLN.Row :=
   | Json.arr #[o, c, l] => do .ok ⟨← ratOf? o, ← intOf? c, ← optOf? ratOf? l⟩
   | _ => .error s!"not a note row: {j}"
 
+def tpToJson (p : Analysis.Tp) : Json := Json.arr #[ratToJson p.time, ratToJson p.bpm]
+
+def optTpToJson : Option Analysis.Tp → Json
+  | some p => tpToJson p
+  | none => Json.null
+
+def descrToJson (d : BpmListOps.Descr) : Json :=
+  obj [("count", Json.num (JsonNumber.fromNat d.count)), ("mean", ratToJson d.mean), ("var", ratToJson d.var),
+       ("min", ratToJson d.min), ("q25", ratToJson d.q25), ("q50", ratToJson d.q50), ("q75", ratToJson d.q75),
+       ("max", ratToJson d.max)]
+
 def handle (op : String) (j : Json) : Except String Json := do
   match op with
+  /- the list-level queries of a tempo list in the row order given (Model/BpmList.lean) -/
+  | "c15.bpmlist" =>
+    let bpms ← getArr tpOf? j "bpms"
+    let t ← getRat j "t"
+    let delta ← getRat j "delta"
+    let last ← getRat j "last"
+    .ok (okJson (obj [("cur", optTpToJson (BpmListOps.currentBpm bpms true t delta)),
+                      ("cur_nosort", optTpToJson (BpmListOps.currentBpm bpms false t delta)),
+                      ("diff", listToJson ratToJson (BpmListOps.timeDiff bpms last)),
+                      ("ave", ratToJson (BpmListOps.aveBpm bpms last)),
+                      ("describe_offset", descrToJson (BpmListOps.describeCol (bpms.map (·.time)))),
+                      ("describe_bpm", descrToJson (BpmListOps.describeCol (bpms.map (·.bpm))))]))
   /- `≈` for multiset-valued results: the rows of a and b are the same multiset -/
   | "c15.same_rows" =>
     let a ← rowsOf? j "a"
